@@ -284,3 +284,64 @@ Fixpoint vexec_list (l : list (vstmt K)) (s : K * option K) {struct l} : K * opt
 (** falling off the end of a value-returning function is undefined: [None] *)
 Definition value_by (descr : list (vstmt K)) : option K := snd (vexec_list descr (k0, None)).
 End Values.
+
+(** * 6. TwoParticleGFPart::addMultiterm: the terms handed to the two term lists, in order *)
+Section Multiterm.
+Variable K : Type.
+Variable k0 : K.
+Fixpoint texec (st : tstmt K) (tol : K) (locs : list K) {struct st} : list K * list (temit K) :=
+  match st with
+  | TsLet f => (locs ++ [f tol (locf K k0 locs)], [])
+  | TsIf c t el =>
+    (locs, snd ((fix go (l : list (tstmt K)) (locs : list K) {struct l} : list K * list (temit K) :=
+                   match l with
+                   | [] => (locs, [])
+                   | s :: r => let r1 := texec s tol locs in let r2 := go r (fst r1) in (fst r2, snd r1 ++ snd r2)
+                   end) (if c tol (locf K k0 locs) then t else el) locs))
+  | TsAddNonRes c p1 p2 p3 fl =>
+    (locs, [TeNonRes (c tol (locf K k0 locs)) (p1 tol (locf K k0 locs)) (p2 tol (locf K k0 locs)) (p3 tol (locf K k0 locs)) fl])
+  | TsAddRes rc nc p1 p2 p3 fl =>
+    (locs, [TeRes (rc tol (locf K k0 locs)) (nc tol (locf K k0 locs)) (p1 tol (locf K k0 locs)) (p2 tol (locf K k0 locs))
+                  (p3 tol (locf K k0 locs)) fl])
+  end.
+Fixpoint texec_list (l : list (tstmt K)) (tol : K) (locs : list K) {struct l} : list K * list (temit K) :=
+  match l with
+  | [] => (locs, [])
+  | s :: r => let r1 := texec s tol locs in let r2 := texec_list r tol (fst r1) in (fst r2, snd r1 ++ snd r2)
+  end.
+(** addMultiterm(args): the parameters are the first locals *)
+Definition addmultiterm_by (descr : list (tstmt K)) (tol : K) (args : list K) : list (temit K) := snd (texec_list descr tol args).
+End Multiterm.
+
+(** * 7. the innermost body of TwoParticleGFPart::compute for one quadruple: the argument lists of the addMultiterm calls *)
+Section TPBody.
+Variable K : Type.
+Variable k0 : K.
+Variable kmul : K -> K -> K.
+Fixpoint upd_nth (n : nat) (v : K) (l : list K) : list K :=
+  match l, n with
+  | [], _ => []
+  | _ :: r, O => v :: r
+  | x :: r, S n' => x :: upd_nth n' v r
+  end.
+Fixpoint pexec (st : pstmt K) (e : tenv K) (locs : list K) {struct st} : list K * list (list K) :=
+  match st with
+  | PsLet f => (locs ++ [f e (locf K k0 locs)], [])
+  | PsIf c t el =>
+    (* locals declared inside the branch end with it; assignments to outer locals persist *)
+    let r := (fix go (l : list (pstmt K)) (locs : list K) {struct l} : list K * list (list K) :=
+                match l with
+                | [] => (locs, [])
+                | s :: r => let r1 := pexec s e locs in let r2 := go r (fst r1) in (fst r2, snd r1 ++ snd r2)
+                end) (if c e (locf K k0 locs) then t else el) locs in
+    (firstn (length locs) (fst r), snd r)
+  | PsMulAssign n f => (upd_nth n (kmul (nth n locs k0) (f e (locf K k0 locs))) locs, [])
+  | PsAddMultiterm args => (locs, [map (fun a => a e (locf K k0 locs)) args])
+  end.
+Fixpoint pexec_list (l : list (pstmt K)) (e : tenv K) (locs : list K) {struct l} : list K * list (list K) :=
+  match l with
+  | [] => (locs, [])
+  | s :: r => let r1 := pexec s e locs in let r2 := pexec_list r e (fst r1) in (fst r2, snd r1 ++ snd r2)
+  end.
+Definition tp_inner_by (descr : list (pstmt K)) (e : tenv K) : list (list K) := snd (pexec_list descr e []).
+End TPBody.
